@@ -219,6 +219,13 @@ func (m *Muxer) WriteData(d *MuxerData) (int, error) {
 
 	bytesWritten += n
 
+	// The stuffing of the adaptation field is computed below: what the caller's field holds, e.g. coming from a parsed
+	// packet, is not kept
+	if d.AdaptationField != nil {
+		d.AdaptationField.StuffingLength = 0
+		d.AdaptationField.IsOneByteStuffing = false
+	}
+
 	payloadStart := true
 	writeAf := d.AdaptationField != nil
 	payloadBytesWritten := 0
